@@ -1,4 +1,5 @@
 #![allow(dead_code)]
+mod dev;
 mod engine;
 mod gen;
 mod lspc;
@@ -18,6 +19,9 @@ fn main() {
     let args: Vec<String> = std::env::args().collect();
     if args.len() < 3 {
         usage();
+    }
+    if args[1] == "dev-gen" {
+        std::process::exit(dev::dev_gen(&args[2..]));
     }
     let Some(prop) = props::find(&args[2]) else {
         eprintln!("unknown property {}", args[2]);
